@@ -203,6 +203,10 @@ def suite_datamove(g, n, big=False):
         r = rng.randint(1, 10)
         c = wdim(g, 1, 700 if rng.random() < 0.2 else 200)
         if op == 'add':
+            if rng.random() < 0.6:
+                # every branch of the width switch of _mzd_add (1..8 words, mzd_combine_even beyond) equally often
+                w_ = rng.randint(1, 10)
+                c = 64 * (w_ - 1) + rng.choice([1, 63, 64, rng.randint(1, 64)])
             A = g.mat(r, c)
             B = g.mat(r, c)
             al = rng.random()
